@@ -44,7 +44,7 @@ Exercised(cl, t) ==
            [] cl = "C14.citations" -> tr.ref # <<>>
            [] OTHER -> FALSE
   ELSE CASE cl \in {"C14.cache.noraise", "C14.cache.sametokens"} ->          \* a construction after a fault or a crash
-              \E k \in DOMAIN tr.events : tr.events[k].ev \in Faulty \cup {"crash", "foreign"}
+              \E k \in DOMAIN tr.events : tr.events[k].ev \in Faulty \cup {"crash", "foreign", "foreignorder"}
          [] OTHER -> FALSE
 Judge == tid # 0 => (/\ \A cl \in Clauses : Holds(cl, tid) \/ PrintT(<<"FAIL", tid, cl>>)
    /\ PrintT(<<"HIT", tid, Mask([ci \in DOMAIN ClauseSeq |-> Exercised(ClauseSeq[ci], tid)])>>))
